@@ -438,12 +438,7 @@ func CheckC04(c *Ctx) {
 		})
 	}
 	c.Parallel("raw-random", c.Pick(3_000_000, 40_000_000), 1<<13, func(w *Worker, i int) {
-		var a spec.Assign
-		if w.R.Bool() {
-			a = gen.RandomAssign(w.R, api.Ver)
-		} else {
-			a = gen.SparseAssign(w.R, api.Ver, 1, 3)
-		}
+		a := gen.MixedAssign(w.R, api.Ver)
 		v4Check(c, w, api, a, w.R.Intn(NStyles), stats, i%300007 == 0)
 		w.Count("raw-random-objects")
 	})
